@@ -17,4 +17,8 @@ TEXT = {
   "level_text": "exhaustive enumeration of the finite grid (message type x variant x field path x enum value, the part of the quantifier that is finite) plus randomized search over field contents, each judged by round-trip against an independent canonical form, by cross-codec agreement and by byte-count identities; the generator's registry is checked against the package source so a new type or constant cannot go untested",
   "level_note": "trusts gogo/protobuf and jsonpb wire formats; the canonical form is written in the harness from the documented resolutions, not derived from the converters",
   "technique": "property-based testing (rapid) + exhaustive grid by reflection; round-trip and differential (protobuf vs JSON) oracles"},
+ "C14": {
+  "level_text": "complete enumeration of all permutations x loss subsets up to 6 segments (the bound named in the property) and of two interleaved 3-segment messages, plus randomized search beyond (larger messages, several messages in flight, sequence wrap-around, expiry clock) against a reference model of the reassembly table; arbitrary datagrams through the direct and the public (quic.New) path with process-death detection",
+  "level_note": "the direct path uses verif-tagged re-exports of internal/segment (add-only hook); the public path runs the real transport/quic.Transport over an in-memory quic.Connection",
+  "technique": "exhaustive small-scope enumeration + model-based property testing (rapid) + hostile-input generation"},
 }
